@@ -96,6 +96,13 @@ CLAIMED = {
         note=TB + "; revolved, swept and extruded shapes are bounded (parameter grids and section counts are fixed lists); sweep_polygon is not covered.",
         technique="contract-based deductive verification (symbolic execution of creation.box with a ghost constructor, ghost-self contracts for the analytic measures, z3) + bounded contract evaluation on the real code against inscribed-tessellation closed forms",
     ),
+    "C16": dict(
+        category="proof",
+        text="Trimesh.bounds is proved for EVERY vertex count N: each referenced vertex lies inside [min, max] (lambda arrays, filter and extremum axioms; None only when nothing is referenced). nsphere.minimum_nsphere is put under a modular contract (hull_points, fit_nsphere, the Voronoi diagram are ghosts returning arbitrary values): on both return paths that hand back the least-squares centre the reported radius is the LARGEST centre-to-point distance, so the sphere contains every point whatever the fit returned (the Voronoi-vertex path is bounded only). convex.convex_hull's own re-indexing is proved on a ghost qhull result (six symbolic input points, four symbolic hull vertex ids, four symbolic simplices; bounded shape): every face corner is the point qhull named, every vertex is an input point, indices in range. Bounded on the real code: 11 point sets (random, lattice with ties, shifted lattice, clustered, nearly flat, far from the origin, tiny, huge, sparse elongated, cospherical, tetrahedron with interior points) as point cloud and as hull mesh: hull watertight / outward / convex / vertices are input points / contains every input; AABB; oriented box without and with a given normal and unordered (rigid transform, points inside the reported extents, box centred at the origin), bounding_box_oriented; minimum_nsphere and bounding_sphere containment, minimality against a brute-force minimal enclosing sphere on small sets; bounding cylinder; 2-D rectangle and circle. Two known findings (sphere not minimal; flat input raises).",
+        design_ref="DESIGN.md §4 C16",
+        note=TB + "; (M4) qhull's own guarantees are assumed and compared bounded; oriented_bounds' search and apply_obb are bounded only; the Voronoi return path of minimum_nsphere is bounded only (the solvers did not decide sqrt of an argmin-selected maximum).",
+        technique="contract-based deductive verification (lambda arrays for Trimesh.bounds, modular ghost contracts for minimum_nsphere and the hull re-indexing, z3) + bounded contract evaluation on the real code",
+    ),
     "C17": dict(
         category="proof",
         text="Ownership contract of every copy routine evaluated on the real objects: for 18 objects/states (meshes fresh / with every cached value read / face colours + nested metadata + attributes / vertex colours / texture / density and centre-of-mass overrides; Box, Cylinder(sections=7), Sphere(subdivisions=1), Capsule, Extrusion, primitive with overrides; Path2D with polygons read, Path3D, PointCloud, nested Scene, dense and run-length VoxelGrid) x copy(), copy.copy, copy.deepcopy (+ include_cache=True): (faithful) every field of the abstract state - arrays, primitive parameters, overrides, attributes, visuals, metadata, scene graph - is equal; (fresh) NO mutable object (writeable array, dict, list, set, geometry / visual / graph / tree object) is reachable from both objects, over every reference path of both object graphs; (frame) up to ten edits, in place and through the API, applied to either object leave every value the other reports - read before and computed after - unchanged. The static obligations (proof-level, tiny): the copy routine of each of the 13 classes named by the statement exists in the current source and never returns self or a bare attribute of self. Seven defects found this way were repaired; sharing of cached objects by include_cache / copy.copy(mesh) is a recorded known finding.",
